@@ -593,6 +593,32 @@ pub fn socket_stage(ctx: &Ctx, reps: &[(String, Vec<u8>)]) {
 }
 
 pub fn run(ctx: &Ctx) {
+    // long-lived services under the real clock, in the background of everything below
+    let longevity = if crate::engine::loopback_multicast_works() {
+        Some(std::thread::spawn(|| {
+            let a = std::thread::spawn(|| super::longev::silent_peer("C14", false));
+            let mut f = super::longev::silent_peer("C14", true);
+            f.extend(a.join().unwrap_or_default());
+            f
+        }))
+    } else {
+        None
+    };
+    run_spaces(ctx);
+    if let Some(h) = longevity {
+        let f = h.join().unwrap_or_default();
+        let mut t = Tally::default();
+        t.evals += 2;
+        t.nontrivial += 2;
+        t.transitions += 4;
+        t.outcome(if f.is_empty() { "socket-alive" } else { "socket-dead-after-a-while" });
+        ctx.merge(t);
+        ctx.violations(f);
+        ctx.space("long-lived services (sync and tokio ServiceDiscovery, in the background of the other spaces): one response with TTL 12 from a peer that then stays silent; 13 s later announce() still succeeds and a new response is still ingested", 2, "complete for the two services");
+    }
+}
+
+fn run_spaces(ctx: &Ctx) {
     let thorough = ctx.eff_tier() == crate::engine::Tier::Thorough;
     ctx.set_rule("datagram alphabet: every buffer of length <= L over {00,80,ff}; every cut and byte perturbation of a benign query, a benign announcement and a hostile-name response; queries and responses carrying each hostile label class (non-UTF-8, NUL, dot, backslash, 63 bytes, 255-byte name) under and outside the watched service, plain and compressed; 9000-byte datagrams; benign traffic. Each datagram x 3 store kinds (empty, as ServiceDiscovery::new builds it, plus a cached peer) x {fresh, after benign traffic} goes through the responder, sync discovery (with / without channel), async ingest and one-shot resolver pipelines composed from the real functions, under the real RwLock; afterwards the lock must be unpoisoned, get_known_services computable, a benign query answered exactly as by an untouched store, a benign announcement discovered, every reply parseable. Representatives are replayed against running services over loopback multicast. non-trivial = the datagram parses (the handlers run past the parser)");
     ctx.assume("the pipelines mirror the receive-loop bodies of simple_responder.rs / service_discovery.rs / oneshot_resolver.rs (sync and async); the loops themselves are exercised by the socket stage on a representative set");
